@@ -87,6 +87,18 @@ def gauge_tachyon(t, pattern):
     return None
 
 
+def spinfo_entries(stdout):
+    """the entries 3 (warning) and 4 (error) of a block SPINFO in the output (not any line that starts with 3 or 4)"""
+    res, inside = [], False
+    for l in stdout.split("\n"):
+        t = l.split()
+        if t and t[0].lower() == "block":
+            inside = len(t) > 1 and t[1].upper() == "SPINFO"
+        elif inside and len(t) > 1 and t[0] in ("3", "4"):
+            res.append(l)
+    return res
+
+
 # (name, kind, editor, force_cannot_override) ; kind: input | tachyon
 def defects_for(fmt):
     D = []
@@ -199,9 +211,9 @@ def run(chk):
             chk.evaluations += 1
             chk.conclusive += 1
             mssm = fmt != "thdm"
-            diag = bool(r["stderr"].strip()) or bool(re.search(r"(?m)^\s*4\s+\S", r["stdout"]))
+            diag = bool(r["stderr"].strip()) or bool(spinfo_entries(r["stdout"]))
             phys = has_physics_output(r["stdout"])
-            problem_line = "Problem:" in r["stderr"] or bool(re.search(r"(?m)^\s*4\s+.*[Pp]roblem", r["stdout"]))
+            problem_line = "Problem:" in r["stderr"] or any("roblem" in x for x in spinfo_entries(r["stdout"]))
             case = dict(format=fmt, defect=name, force=force, output_format=ofmt, input_text=t, exit=r["exit"], signal=r["signal"], stdout=r["stdout"][-1500:], stderr=r["stderr"][:1500])
             single = name if ncomb == 1 else "pair"
             cell = "%s|CLI|%s|force%d" % ("MSSM:" + fmt if mssm else "THDM", single, force)
